@@ -810,36 +810,56 @@ func (a *nilAn) nilAryHarmless(fn *ssa.Function, ci ssa.CallInstruction, recv ss
 			return true, strings.Join(whys, "; ")
 		}
 	}
-	// a parameter of a helper that does not store it, every call site of which hands in a scratch node
-	if p, ok := recv.(*ssa.Parameter); ok && fn.Signature.Recv() == nil {
-		if e, _ := a.escapesIntoDocument(p); !e {
-			idx := paramIdx(p)
-			sites, asValue := 0, false
-			allOK := true
-			var whys []string
-			for _, g := range a.fns {
-				allInstrs(g, func(j ssa.Instruction) {
-					if cj, ok := j.(ssa.CallInstruction); ok && cj.Common().StaticCallee() == fn {
-						sites++
-						if ok, why := scratch(cj.Common().Args[idx]); ok {
-							whys = append(whys, fname(g)+": "+why)
-						} else {
-							allOK = false
+	// a parameter of a helper that does not store it, every call site of which hands in a scratch
+	// node — itself possibly the parameter of such a helper
+	var viaParam func(v ssa.Value, depth int) (bool, string)
+	viaParam = func(v ssa.Value, depth int) (bool, string) {
+		if ok, why := scratch(v); ok {
+			return true, why
+		}
+		p, ok := v.(*ssa.Parameter)
+		if !ok || depth > 3 {
+			return false, ""
+		}
+		g := p.Parent()
+		if g.Signature.Recv() != nil || token.IsExported(g.Name()) {
+			return false, ""
+		}
+		if e, _ := a.escapesIntoDocument(p); e {
+			return false, ""
+		}
+		idx := paramIdx(p)
+		sites, asValue := 0, false
+		allOK := true
+		var whys []string
+		for _, h := range a.fns {
+			allInstrs(h, func(j ssa.Instruction) {
+				if cj, ok := j.(ssa.CallInstruction); ok && cj.Common().StaticCallee() == g {
+					sites++
+					if ok, why := viaParam(cj.Common().Args[idx], depth+1); ok {
+						whys = append(whys, fname(h)+": "+why)
+					} else {
+						allOK = false
+					}
+				}
+				for _, op := range j.Operands(nil) {
+					if *op == ssa.Value(g) {
+						if cj, ok := j.(ssa.CallInstruction); !ok || cj.Common().Value != ssa.Value(g) {
+							asValue = true
 						}
 					}
-					for _, op := range j.Operands(nil) {
-						if *op == ssa.Value(fn) {
-							if cj, ok := j.(ssa.CallInstruction); !ok || cj.Common().Value != ssa.Value(fn) {
-								asValue = true
-							}
-						}
-					}
-				})
-			}
-			if sites > 0 && allOK && !asValue {
-				sort.Strings(whys)
-				return true, fmt.Sprintf("parameter of a helper that does not store it; all %d call site(s) hand in a scratch node (%s)", sites, strings.Join(whys, "; "))
-			}
+				}
+			})
+		}
+		if sites > 0 && allOK && !asValue {
+			sort.Strings(whys)
+			return true, fmt.Sprintf("parameter of a helper that does not store it; all %d call site(s) hand in a scratch node (%s)", sites, strings.Join(whys, "; "))
+		}
+		return false, ""
+	}
+	if _, isP := recv.(*ssa.Parameter); isP && fn.Signature.Recv() == nil {
+		if ok, why := viaParam(recv, 0); ok {
+			return true, why
 		}
 	}
 	// behind isArray(*recv.raw)
